@@ -81,6 +81,9 @@ func rollHook(ck *sim.Kind, cns string, genSel bool) world.HookFunc {
 	})
 }
 
+// rollFieldPaths: revisionHistory.fieldPaths of the next newRollWorld (nil = the default, all of spec)
+var rollFieldPaths []string
+
 func newRollWorld(n int, cluster bool, child, method string, checks, genSel bool) *rollWorld {
 	x := &rollWorld{pk: kit.Thing, pns: "n1", ck: kit.Widget, cns: "n1", checks: checks}
 	if cluster {
@@ -92,8 +95,12 @@ func newRollWorld(n int, cluster bool, child, method string, checks, genSel bool
 	o := ccOpt{parent: x.pk, children: []*sim.Kind{x.ck}, generateSel: genSel,
 		methods: map[string]v1alpha1.ChildUpdateMethod{x.ck.Resource: v1alpha1.ChildUpdateMethod(method)}}
 	if checks {
-		tr := "True"
-		o.checks = map[string]v1alpha1.ChildUpdateStatusChecks{x.ck.Resource: {Conditions: []v1alpha1.StatusConditionCheck{{Type: "Ready", Status: &tr}}}}
+		// two checks: one by type and status, one by type, status and reason
+		tr, good := "True", "Good"
+		o.checks = map[string]v1alpha1.ChildUpdateStatusChecks{x.ck.Resource: {Conditions: []v1alpha1.StatusConditionCheck{{Type: "Scheduled", Status: &tr}, {Type: "Ready", Status: &tr, Reason: &good}}}}
+	}
+	if rollFieldPaths != nil {
+		o.fieldPaths = rollFieldPaths
 	}
 	x.opt = o
 	x.cworld = newCWorld(o, false)
@@ -124,7 +131,7 @@ func (x *rollWorld) fair() {
 				c["status"] = map[string]interface{}{
 					"observedGeneration": gen,
 					// as on a Pod, the checked condition is not the first one in the list
-					"conditions": []interface{}{map[string]interface{}{"type": "Initialized", "status": "True"}, map[string]interface{}{"type": "Ready", "status": "True"}, map[string]interface{}{"type": "Scheduled", "status": "True"}},
+					"conditions": []interface{}{map[string]interface{}{"type": "Initialized", "status": "True", "reason": "Init"}, map[string]interface{}{"type": "Ready", "status": "True", "reason": "Good"}, map[string]interface{}{"type": "Scheduled", "status": "True", "reason": "Sched"}},
 				}
 			})
 		}
